@@ -1032,7 +1032,9 @@ fn run_one<K: HKind>(ctx: &mut Ctx, prop: Prop, cfg: &Cfg, seq: &[usize], prev: 
                 viol::<K>(ctx, prop, cfg, seq, seq.len() - 1, "terminals_left_after_teardown", &format!("{nt} terminals remain after dropping all handles and gc"));
             }
         }
-        if cfg.nodes <= 64 {
+        // Worker threads of the manager keep private free-slot lists (by design of the allocator), so
+        // the number of nodes the calling thread can create is only meaningful with a single worker.
+        if cfg.nodes <= 64 && cfg.threads == 1 {
             let b = {
                 let mut bm = base.borrow_mut();
                 *bm.entry(n).or_insert_with(|| {
